@@ -214,9 +214,12 @@ fn c01_from_parts_bad_index_panics() {
 
 macro_rules! iter_split {
 	($name:ident, $cap:expr, $rev:expr) => {
+		iter_split!($name, $cap, $rev, 34);
+	};
+	($name:ident, $cap:expr, $rev:expr, $unw:expr) => {
 		/// iterator split into a consumed part of symbolic length j and the rest
 		#[kani::proof]
-		#[kani::unwind(34)]
+		#[kani::unwind($unw)]
 		fn $name() {
 			let (w, arr, n, idx) = any_ring::<{ $cap }>();
 			let j: usize = kani::any();
@@ -276,6 +279,8 @@ macro_rules! iter_split {
 
 iter_split!(c01_iter_split32, 32, false);
 iter_split!(c01_iter_rev_split32, 32, true);
+iter_split!(c01_iter_split128, 128, false, 130);
+iter_split!(c01_iter_rev_split128, 128, true, 130);
 
 /// small rings (capacity 1..=8): the whole observable sequence after from_parts and after one push, with
 /// concrete loops (cheap even if the implementation loops over the buffer)
